@@ -32,7 +32,8 @@ from pyvc.repo import ClassInfo
 
 PROPERTY = "C04"
 DAO = "krrood.ormatic.dao"
-FUNCTIONS = [(DAO, "DataAccessObject.to_dao"), (DAO, "DataAccessObject.to_dao_default"), (DAO, "DataAccessObject.get_columns_from"),
+FUNCTIONS = [(DAO, "DataAccessObject.to_dao"), (DAO, "DataAccessObject.to_dao_default"), (DAO, "DataAccessObject.to_dao_if_subclass_of_alternative_mapping"),
+             (DAO, "DataAccessObject.partition_parent_child_relationships"), (DAO, "DataAccessObject.get_columns_from"),
              (DAO, "DataAccessObject.get_relationships_from"), (DAO, "DataAccessObject._extract_single_relationship"),
              (DAO, "DataAccessObject._extract_collection_relationship"), (DAO, "DataAccessObject.from_dao"),
              (DAO, "DataAccessObject._allocate_uninitialized_and_memoize"), (DAO, "DataAccessObject._collect_scalar_kwargs"),
@@ -56,7 +57,7 @@ ASSUMPTIONS = [
 TRUSTED = ["mapper model of SQLAlchemy", "the composition of the two memo isomorphisms into the round-trip statement (argued)"]
 BOUNDED_ONLY_CLAUSES = ["mapper width: 5 columns / 4 relationships of every kind; collections of length 3 with a repeated element",
                         "whole round trips on random object graphs with sharing and cycles are measured by the bounded driver",
-                        "to_dao_if_subclass_of_alternative_mapping (DAO below an alternatively mapped parent) is covered by the bounded driver only"]
+                        "from_dao below an alternatively mapped parent (_build_base_kwargs_for_alternative_parent) is covered by the bounded driver only"]
 
 SYNTH = '''
 from krrood.ormatic.dao import DataAccessObject, AlternativeMapping
@@ -97,6 +98,23 @@ class Mapped(AlternativeMapping):
 
 def cls(vm, mod, name):
     return vm.loader.cls(mod, name)
+
+
+class Columns(Opaque):
+    """sqlalchemy ColumnCollection (assumed): iterates the columns in order; `name in collection` tests by column key"""
+
+    def __init__(self, cols):
+        super().__init__("column-collection")
+        self.cols = list(cols)
+
+    def m_iter(self, vm):
+        return PyList(list(self.cols))
+
+    def m_contains(self, vm, k):
+        return any(c is k or c.fields.get("name") == k for c in self.cols)
+
+    def m_truth(self, vm):
+        return bool(self.cols)
 
 
 class DW:
@@ -361,6 +379,47 @@ def h_from_dao_alternative():
     return Harness("from-dao-alternative", run, spec=Spec())
 
 
+def h_to_dao_below_alternative_parent():
+    """to_dao_if_subclass_of_alternative_mapping: the inherited part is taken from the parent's MAPPING of the object, the own part
+    from the object; the object stays registered under its own DAO (the temporary removal from the memo is undone)."""
+    def run(vm):
+        ctx = vm.ctx
+        W = DW(vm)
+        st = W.state("ToDAOState")
+        pcols = [W.col("database_id", pk=True), W.col("p1")]
+        prels = [W.rel("prel", "MANYTOONE", False)]
+        ccols = pcols + [W.col("c1"), W.col("polymorphic_type")]
+        crels = prels + [W.rel("crel", "ONETOMANY", True)]
+        attrs = [vm.alloc(vm.ext("object"), {"columns": PyList([c]), "key": c.fields["name"]}, tag="column-attr") for c in ccols]
+        pmapper = vm.alloc(vm.ext("object"), {"columns": Columns(pcols), "relationships": PyList(prels)}, tag="parent-mapper")
+        cmapper = vm.alloc(vm.ext("object"), {"columns": Columns(ccols), "relationships": PyList(crels), "column_attrs": PyList(attrs)}, tag="child-mapper")
+        ParentDAO = W.ChildDAO            # stands for the DAO of the alternatively mapped parent
+        insp = vm.loader.externals[("sqlalchemy", "inspection")]
+        insp.fields["inspect"] = Builtin("inspect", lambda it, fr, a, k: pmapper if a[0] is ParentDAO else cmapper)
+        vm.spec.stubs["HasGeneric.original_class"] = lambda it, a, k: W.Mapped if a[0] is ParentDAO else W.Thing
+        k1, k2 = W.domain("kid-of-mapping"), W.domain("kid-of-object")
+        obj = W.domain("root", p1="object-p1", c1="object-c1", prel=k2, crel=PyList([k2]))
+        mapping = vm.alloc(W.Mapped, {"p1": "mapped-p1", "prel": k1}, tag="mapping-of-root")
+        vm.spec.stubs["AlternativeMapping.create_instance"] = lambda it, a, k: mapping
+        nested_to_dao(W, W.ThingDAO)[0] = 1            # every DataAccessObject.to_dao call below is answered by the contract
+        dao = vm.alloc(W.ThingDAO, {}, tag="dao-under-construction")
+        vm.call_method(st, "register", obj, dao)
+        vm.call_method(dao, "to_dao_if_subclass_of_alternative_mapping", obj, ParentDAO, st)
+        memo = st.fields["memo"]
+        ctx.check("DataAccessObject.to_dao_if_subclass_of_alternative_mapping::the-object-stays-registered-under-its-own-dao",
+                  z3.BoolVal(memo.vals.get(key_of(1000000 + obj.oid)) is dao), detail=repr(memo.vals.get(key_of(1000000 + obj.oid))))
+        ctx.check("DataAccessObject.to_dao_if_subclass_of_alternative_mapping::inherited-columns-come-from-the-parents-mapping-own-columns-from-the-object",
+                  z3.BoolVal(dao.fields.get("p1") == "mapped-p1" and dao.fields.get("c1") == "object-c1" and "polymorphic_type" not in dao.fields and "database_id" not in dao.fields),
+                  detail=repr(dao.fields))
+        d1, d2 = memo.vals.get(key_of(1000000 + k1.oid)), memo.vals.get(key_of(1000000 + k2.oid))
+        crel = dao.fields.get("crel")
+        ctx.check("DataAccessObject.to_dao_if_subclass_of_alternative_mapping::inherited-relationships-come-from-the-mapping-own-relationships-from-the-object",
+                  z3.BoolVal(d1 is not None and dao.fields.get("prel") is d1 and isinstance(crel, PyList) and len(crel.items) == 1 and crel.items[0] is d2 and d2 is not None),
+                  detail=f"{dao.fields.get('prel')!r} {crel!r}")
+        ctx.check("DataAccessObject.to_dao_if_subclass_of_alternative_mapping::nested-conversions-share-the-state", z3.BoolVal(all(e[2] is st for e in W.events)), detail=repr(W.events))
+    return Harness("to-dao-below-alternative-parent", run, spec=Spec())
+
+
 def h_states():
     def run(vm):
         ctx = vm.ctx
@@ -411,4 +470,4 @@ def h_canary():
 
 
 def harnesses():
-    return [h_to_dao(), h_top_level_to_dao(), h_alternative_to_dao(), h_from_dao(), h_from_dao_alternative(), h_states(), h_is_data_column(), h_canary()]
+    return [h_to_dao(), h_top_level_to_dao(), h_alternative_to_dao(), h_to_dao_below_alternative_parent(), h_from_dao(), h_from_dao_alternative(), h_states(), h_is_data_column(), h_canary()]
